@@ -359,13 +359,13 @@ func (v *Visitor) EnterField(ref int) {
 		} else {
 			str := &resolve.String{
 				Nullable:   false,
-				Path:       []string{v.Operation.FieldAliasOrNameString(ref)},
+				Path:       []string{v.fieldResponsePath(ref)},
 				IsTypeName: true,
 			}
 			v.currentField.Value = str
 		}
 	} else {
-		path := []string{v.Operation.FieldAliasOrNameString(ref)}
+		path := []string{v.fieldResponsePath(ref)}
 		v.currentField.Value = v.resolveFieldValue(ref, fieldDefinitionTypeRef, true, path)
 	}
 
@@ -373,6 +373,19 @@ func (v *Visitor) EnterField(ref int) {
 	v.fieldStack = append(v.fieldStack, v.currentField)
 
 	v.mapFieldConfig(ref)
+}
+
+// fieldResponsePath returns the key of the field in the data source response: the alias or name which was sent upstream.
+// The introspection data source doesn't see the operation, the fields of its types are always keyed by name
+func (v *Visitor) fieldResponsePath(ref int) string {
+	if strings.HasPrefix(v.Walker.EnclosingTypeDefinition.NameString(v.Definition), "__") {
+		for i := range v.planners {
+			if v.planners[i].HasPathWithFieldRef(ref) && resolve.IsIntrospectionDataSource(v.planners[i].DataSourceConfiguration().Id()) {
+				return v.Operation.FieldNameString(ref)
+			}
+		}
+	}
+	return v.Operation.FieldAliasOrNameString(ref)
 }
 
 func (v *Visitor) mapFieldConfig(ref int) {
